@@ -4,7 +4,8 @@
    every Read call made by the driver: the demand (length of the destination
    frame), the reported count and status, the whole destination frame after
    the call (it was pre-filled with sentinel rows; the part past n is run-length
-   encoded), and rows [0,n) of that frame re-read after the last call of the run.
+   encoded), and what differs in rows [0,n) of that frame when re-read after the
+   last call of the run.
 
    mismatches: the model's per-call (rows, status) differ from the observed
      ones (for Fold, whose order comes from a Go map, per-call counts and
@@ -13,8 +14,8 @@
      meaning [sem]: a call returned more than demanded; on a non-failing call
      the sentinel tail was overwritten; an earlier delivered frame changed;
      the concatenation is not a prefix of [sem] (not equal to it at EOF); EOF
-     although an input that had to be read failed; no end within the bound
-     (livelock); a panic or a hang. *)
+     although an input that had to be read failed; an error although nothing
+     could fail; no end within the bound (livelock); a panic or a hang. *)
 From Coq Require Import List ZArith Bool Arith.
 Import ListNotations.
 Require Export BS.Common.Util BS.C17.Model.
@@ -28,10 +29,12 @@ Inductive kind :=
 | KMerge | KReduce | KBufOut (inner : kind).
 
 (* c_rows: rows [0,n) of the destination right after the call; c_tail: the rest
-   of the destination, run-length encoded (row, repetitions); c_later: rows
-   [0,n) re-read after the last call of the run *)
+   of the destination, run-length encoded (row, repetitions); c_changed: rows
+   [0,n) were re-read after the last call of the run, and this lists every
+   (index, row now there) that differs from c_rows (a lossless encoding of the
+   re-read: empty = the delivered rows are still what they were) *)
 Record call := mkCall { c_d : nat; c_n : nat; c_st : status; c_rows : list row;
-                        c_tail : list (row * nat); c_later : list row }.
+                        c_tail : list (row * nat); c_changed : list (nat * row) }.
 Record case := mkCase { c_kind : kind; c_ins : list script; c_calls : list call; c_side : list row }.
 
 Definition row_eqb := list_eqb Z.eqb.
@@ -129,19 +132,6 @@ Fixpoint sub_sorted (fuel : nat) (a b : list row) : bool :=
       end
   end.
 
-Definition exact_eq (k : kind) (m : list (list row * status)) (cs : list call) : bool :=
-  if ordered k then
-    list_eqb (pair_eqb rows_eqb status_eqb) m (map (fun c => (obs_rows c, c_st c)) cs)
-  else
-    list_eqb (pair_eqb Nat.eqb status_eqb) (map (fun p => (length (fst p), snd p)) m)
-             (map (fun c => (c_n c, c_st c)) cs)
-    && rows_eqb (sort_rows (outs_of m)) (sort_rows (obs_total cs)).
-
-Definition case_exact (c : case) : bool :=
-  let ds := map c_d (c_calls c) in
-  exact_eq (c_kind c) (model_run (c_kind c) (c_ins c) ds) (c_calls c)
-  && rows_eqb (model_side (c_kind c) (c_ins c) ds) (c_side c).
-
 (* ---- the property, judged on observed data ---- *)
 Fixpoint sem (k : kind) (ins : list script) : list row :=
   match k with
@@ -162,6 +152,39 @@ Fixpoint sem (k : kind) (ins : list script) : list row :=
   | KBufOut inner => sem inner ins
   end.
 
+(* ---- exact agreement of model and implementation ----
+   Fold drains a Go map, so which keys a call delivers is not fixed: per-call
+   counts and statuses are compared, the delivered rows must be rows of the
+   model's complete output, and all of them at EOF.  The merge-based readers
+   (merge, reduce) break ties between equal keys of different inputs by heap
+   position, which the model abstracts; this only shows when an input fails
+   (the tie decides in which call the failure is met), so for failing inputs
+   nothing is compared here (the property-level judgement still applies). *)
+Definition counts_eq (m : list (list row * status)) (cs : list call) : bool :=
+  list_eqb (pair_eqb Nat.eqb status_eqb) (map (fun p => (length (fst p), snd p)) m)
+           (map (fun c => (c_n c, c_st c)) cs).
+Definition full_eq (m : list (list row * status)) (cs : list call) : bool :=
+  list_eqb (pair_eqb rows_eqb status_eqb) m (map (fun c => (obs_rows c, c_st c)) cs).
+
+Definition exact_eq (k : kind) (ins : list script) (m : list (list row * status)) (cs : list call) : bool :=
+  if ordered k then
+    match k with
+    | KMerge | KReduce =>
+        if existsb fails ins then true else full_eq m cs
+    | _ => full_eq m cs
+    end
+  else
+    let got := sort_rows (obs_total cs) in
+    let all := sort_rows (sem k ins) in
+    counts_eq m cs
+    && sub_sorted (S (length got + length all)) got all
+    && match obs_final cs with SEof => rows_eqb got all | _ => true end.
+
+Definition case_exact (c : case) : bool :=
+  let ds := map c_d (c_calls c) in
+  exact_eq (c_kind c) (c_ins c) (model_run (c_kind c) (c_ins c) ds) (c_calls c)
+  && rows_eqb (model_side (c_kind c) (c_ins c) ds) (c_side c).
+
 (* must the reader meet a failure of its input before it may report EOF? *)
 Fixpoint must_fail (k : kind) (ins : list script) : bool :=
   match k with
@@ -171,6 +194,16 @@ Fixpoint must_fail (k : kind) (ins : list script) : bool :=
   | KMultiSliceio | KMultiExec | KCogroup | KMerge | KReduce => existsb fails ins
   | KBufOut inner => must_fail inner ins
   | _ => fails (in0 ins)
+  end.
+
+(* can anything fail at all?  (an error is only warranted then) *)
+Fixpoint may_fail (k : kind) (ins : list script) : bool :=
+  match k with
+  | KDecoding => dec_fails (in0 ins)
+  | KWriterFunc (WFailOn _ _) => true
+  | KBufOut inner => may_fail inner ins
+  | KConst _ _ | KFrame | KTaskBuf _ => false
+  | _ => existsb fails ins
   end.
 
 (* calls (all with demand >= 1) within which the reader must have ended *)
@@ -188,7 +221,7 @@ Definition call_ok (c : call) : bool :=
      | SErr _ | SFuel => true
      | _ => forallb (fun p => is_sentinel_row (fst p)) (c_tail c)
      end
-  && rows_eqb (c_later c) (obs_rows c).
+  && is_nil (c_changed c).
 
 Fixpoint all_ok_but_last (l : list status) : bool :=
   match l with
@@ -238,7 +271,8 @@ Definition case_ok (c : case) : bool :=
               | KScanBad _ _ => true
               | _ => (length cs <? bound k (c_ins c))%nat
               end
-     | _ => true
+     | SErr _ => match k with KScanBad _ _ => true | _ => may_fail k (c_ins c) end
+     | SFuel => false
      end
   && side_ok c.
 
